@@ -17,6 +17,7 @@ import threading
 
 import pynguin.configuration as config
 from pynguin.utils import randomness
+from pynguin.utils.exceptions import TracingAbortedException
 
 
 @contextlib.contextmanager
@@ -99,9 +100,12 @@ class OutputSuppressionContext:
         with self._restored_lock:
             if self._restored:
                 # The executor already gave up on this execution (timeout) and
-                # restored the streams; a late-starting thread must not redirect
-                # them again, as nobody would restore them afterwards.
-                return
+                # restored the streams.  A late-starting thread must neither
+                # redirect them again (nobody would restore them afterwards) nor
+                # run the test case without suppression, so abort it right here.
+                raise TracingAbortedException(
+                    "The execution was abandoned before it started, thus I kill it."
+                )
             # Save OS-level fds before the SUT has a chance to close them.
             for fd in (0, 1, 2):
                 with contextlib.suppress(OSError):
